@@ -193,14 +193,16 @@ func (r *Report) Finish() {
 	}
 	fmt.Printf("%s %s: evaluations=%d distinct_nontrivial=%d states=%d transitions=%d outcomes=%d bound=%s exhaustive=%v caps=%v violations=%d known=%d wall=%.1fs\n",
 		r.Property, r.Tier, r.Evaluations, r.DistinctNontriv, r.States, r.Transitions, r.DistinctOutcomes, r.BoundCompleted, cov["exhaustive"], r.CapsHit, nviol, len(knownHit), time.Since(r.T0).Seconds())
-	if len(r.HarnessErrs) > 0 {
-		for _, h := range r.HarnessErrs {
-			fmt.Printf("HARNESS-ERROR property=%s %s\n", r.Property, h)
-		}
-		os.Exit(2)
+	for _, h := range r.HarnessErrs {
+		fmt.Printf("HARNESS-ERROR property=%s %s\n", r.Property, h)
 	}
 	if nviol > 0 {
+		// confirmed violations decide the exit status even if other parts of the run had trouble
+		// (e.g. code whose behaviour now depends on map iteration order also makes replays diverge)
 		os.Exit(1)
+	}
+	if len(r.HarnessErrs) > 0 {
+		os.Exit(2)
 	}
 	os.Exit(0)
 }
